@@ -66,6 +66,32 @@ func vfProdRegionsAt(run *vfProdRun, before int64) []string {
 		connErr, bump := false, false
 		epochOnWire, explained := int64(0), int64(0)
 		answeredOK := map[string]bool{}
+		// a produce request still unanswered on one connection when the next one from this client reaches the same broker on
+		// another connection: the client gave the first connection up (its read timeout expired while the answer was held),
+		// which is a connection-level failure too. The request at `before` itself counts here: it is the one that shows it.
+		type openReq struct {
+			conn     int
+			answered bool
+		}
+		lastReq := map[int32]*openReq{}
+		for _, e := range run.sim.hist.snapshot() {
+			if e.Seq > before {
+				break
+			}
+			switch e.Kind {
+			case "produce-part":
+				if o := lastReq[e.Broker]; o != nil && o.conn != e.Conn && !o.answered {
+					connErr = true
+				}
+				if o := lastReq[e.Broker]; o == nil || o.conn != e.Conn || o.answered {
+					lastReq[e.Broker] = &openReq{conn: e.Conn}
+				}
+			case "produce-resp":
+				if o := lastReq[e.Broker]; o != nil && o.conn == e.Conn {
+					o.answered = true
+				}
+			}
+		}
 		for _, e := range run.sim.hist.snapshot() {
 			if e.Seq >= before {
 				break
